@@ -28,9 +28,10 @@ Transcribed (snapshot ef0888e + the `fix:` commits listed in findings/C06.txt):
   the float64 weighting as `goFlapDecide`), the batch side of alert (`alertThrNodeB`, `alertCountNodeB`:
   `alertState.BufferedBatch`) and eval (`evalCountAddNodeB`), `groupByStream` (`GroupByNode.Point`), and `runPipe`
   (two nodes in a row; the window's batch travels under its batch-edge id, `onBatchEdge`).
-`whereNestedNode` / `evalNestedNode`: where / eval whose lambda uses a lambda VAR (nested `EvalLambdaNode`, one
-  ExecutionState per node — the recorded finding nested-lambda-state-shared); `alert().crit(lambda: nl)` with a nested
-  lambda is exactly `alertNodeShared`.
+`whereNestedNode` / `evalNestedNode`: where / eval whose lambda uses a lambda VAR (nested `EvalLambdaNode`; its
+  ExecutionState is per `CopyReset` copy = per group since `fix:` dcda92d; `whereNestedNodeShared` /
+  `evalNestedNodeShared` = one per node, the code before the fix); `alert().crit(lambda: nl)` with a nested lambda is
+  `alertNode` (it was exactly `alertNodeShared`).
 Abstracted: everything about a message except group id / time / the field `v` / name / tags; errors are
 "log and drop"; unbuffered batches inside the concrete receivers (the generic demultiplexer does model them; the
 batch-side receivers take whole buffered batches).
@@ -446,13 +447,29 @@ def alertNode (pr : CountPred) : Node Unit (Nat × Nat) Pt Out :=
 
 /-! ### a lambda var used as a NESTED lambda node (`tick/stateful/eval_lambda_node.go`)
 
-`EvalLambdaNode.state` is created once in `NewEvalLambdaNode` and belongs to the node evaluator, which all
-`CopyReset` copies of the enclosing expression share: the stateful functions INSIDE the nested lambda have one
-state per node (`Γ`), those of the enclosing expression one per group (`σ`). Finding nested-lambda-state-shared. -/
+`EvalLambdaNode.state` belongs to the lambda node evaluator. Since `fix:` dcda92d `Expression.CopyReset` — called in
+every `NewGroup` — copies the lambda nodes of the expression (`copyResetNodeEvaluator`), each copy with a fresh state:
+the stateful functions INSIDE the nested lambda and those of the enclosing expression are both per group (`σ` = the two
+counters). Before the fix the node evaluator tree, lambda nodes and their state included, was shared by all copies: one
+nested state per node (`Γ`) — the `…Shared` receivers, kept for the counterexample theorem (was finding
+nested-lambda-state-shared). `alert().crit(lambda: nl)` with `var nl = lambda: count() > K` is `alertNode (.gt K)` now
+(it was `alertNodeShared`). -/
 
 /-- `var nl = lambda: count() % M == R` … `|where(lambda: nl AND count() % 2 == 1)`: AND short-circuits, so the
-outer `count()` runs only when `nl` held. -/
-def whereNestedNode (m r : Nat) : Node Nat Nat Pt Out :=
+outer `count()` runs only when `nl` held. State = (count() of the group's nested lambda, the group's outer count()). -/
+def whereNestedNode (m r : Nat) : Node Unit (Nat × Nat) Pt Out :=
+  pureNode (0, 0) (fun s p =>
+    if (s.1 + 1) % m == r then
+      ((s.1 + 1, s.2 + 1), if (s.2 + 1) % 2 == 1 then [{ key := p.key, time := p.time, proj := "-" }] else [])
+    else ((s.1 + 1, s.2), []))
+
+/-- `var nc = lambda: count()` … `|eval(lambda: nc * 1000 + count()).as('o')`. -/
+def evalNestedNode : Node Unit (Nat × Nat) Pt Out :=
+  pureNode (0, 0) (fun s p =>
+    ((s.1 + 1, s.2 + 1), [{ key := p.key, time := p.time, proj := s!"i:{(s.1 + 1) * 1000 + (s.2 + 1)}" }]))
+
+/-- `whereNestedNode` as the code was before dcda92d: the nested lambda's counter is node-wide (`Γ = Nat`). -/
+def whereNestedNodeShared (m r : Nat) : Node Nat Nat Pt Out :=
   { newGroup := fun γ _ _ => (γ, 0),
     recv := fun γ s msg =>
       match msg with
@@ -462,8 +479,8 @@ def whereNestedNode (m r : Nat) : Node Nat Nat Pt Out :=
         else (γ + 1, (s, []))
       | _ => (γ, (s, [])) }
 
-/-- `var nc = lambda: count()` … `|eval(lambda: nc * 1000 + count()).as('o')`. -/
-def evalNestedNode : Node Nat Nat Pt Out :=
+/-- `evalNestedNode` as the code was before dcda92d. -/
+def evalNestedNodeShared : Node Nat Nat Pt Out :=
   { newGroup := fun γ _ _ => (γ, 0),
     recv := fun γ s msg =>
       match msg with
